@@ -2,7 +2,7 @@
 Decided: ABS-FIRST, PIPELINE (expand -> trim_protocol -> clean -> walk -> mash), SIBLING (Memfs::_abs vs Stdfs::abs), EFFECT (no IO), FWD (PathExt).
 Not decided: the value abs returns, idempotence, the exact failure set."""
 import re
-import engine, absrules, fwd
+import engine, absrules, fwd, pathrules
 from callgraph import CallGraph
 from mir import callee_of, op_local
 from panics import sdesc_operand, skey_call
@@ -141,6 +141,7 @@ def run(rep, F, ctx):
     absrules.effect(rep, F, cg, memfs_abs, absrules.IO_EFFECT, 'Memfs::_abs does no IO', key='effect:Memfs::_abs')
     ext = absrules.effect(rep, F, cg, stdfs_abs, absrules.IO_EFFECT, 'Stdfs::abs does no IO (it may read env::current_dir and env::var)', key='effect:Stdfs::abs')
     rep.analysed['stdfs_abs_env_calls'] = sorted(c for c in ext if c.startswith('std::env::'))
+    pathrules.join_own(rep, F, cg)
     rep.rule('FWD', 'the PathExt method forms used by Memfs::_abs are transparent forwarders to the free functions used by Stdfs::abs')
     n = fwd.static_forwarders(rep, F, 'std::path::Path', fwd.PATHEXT_TRAIT, 'sys::fs::path::{name}', False)
     rep.floor('FWD', 'PathExt forwarders', n, 21)
